@@ -41,6 +41,10 @@ fn param_grid(thorough: bool) -> Vec<Params> {
         (0.0, 0.03, 1e-4, 0.1, 1e-3),
         (0.0, 4.0, 1e-3, 0.1, 1e-2),
         (0.0, 0.5, 1e-7, 0.1, 1e-7),
+        // loose tolerances: on the pinned tree the BDF solvers get past their first implicit
+        // step, and RK 3(2) accepts steps, only with tolerances like these
+        (0.0, 1.0, 1e-3, 0.1, 0.1),
+        (0.0, 2.0, 1e-3, 0.1, 1.0),
     ];
     // sweeps across the points where the multistep start-up (O-1 resp. O Runge-Kutta steps of
     // the first trial step length (min+max)/2) no longer fits before the end
